@@ -3,7 +3,7 @@ extern crate std;
 use super::*;
 use crate::context::Context;
 use crate::gc::Gc;
-use crate::collect_impl::verif_kani::{a, Rec};
+use crate::collect_impl::verif_kani::{a, same, Rec};
 #[kani::proof]
 #[kani::unwind(6)]
 fn k_collect_slotmap() {
@@ -13,7 +13,7 @@ fn k_collect_slotmap() {
         let mut m: SlotMap<slotmap::DefaultKey, Gc<'_, u8>> = SlotMap::with_capacity(2);
         let k0 = m.insert(g[0]); let _k1 = m.insert(g[1]);
         let mut r = Rec::new(); m.trace(&mut r);
-        assert!(r.ns == 2 && r.nw == 0 && r.s[0] == a(g[0]) && r.s[1] == a(g[1]), "[trace] SlotMap: every stored value");
+        assert!(same(&r, &[a(g[0]), a(g[1])], &[]), "[trace] SlotMap: every stored value");
         m.remove(k0);
         let mut r = Rec::new(); m.trace(&mut r);
         assert!(r.ns == 1 && r.s[0] == a(g[1]), "[trace] SlotMap: removed values are not reported");
